@@ -1,7 +1,7 @@
 """C03 - A synchronized pipeline computes the composition of its filters, frame for frame - second sentence and flow-control gates (DESIGN 6-C03)."""
 from .sendunit import SendUnit, SEND_MUTANTS, keep_for as skeep
 from .mqunit import MQUnit, ProcessFramesUnit
-from .recvunit import keep_for
+from .recvunit import keep_for, RecvUnit, Shape, RECV_MUTANTS
 from . import c01
 
 PROPERTY = 'C03'
@@ -17,4 +17,8 @@ s = SendUnit(keep=skeep('C03.'))
 s.mutants = SEND_MUTANTS['C03']
 m = MQUnit(keep=keep_for('C03.'))
 m.mutants = tuple(x for x in MQUnit.mutants if 'C03' in x[4])
-UNITS = [s, m, ProcessFramesUnit()]
+RQ = [Shape(('all',), (0,), False), Shape(('all', 'all'), (0, 0), False), Shape(('all', 'explicit'), (0, 1), False)]
+r = RecvUnit({'C03'}, RQ, RQ + [Shape(('all', 'all', 'all'), (0, 0, 0), False), Shape(('all', 'all'), (0, 0), True)], keep=keep_for('C03.'))
+r.mutants = RECV_MUTANTS['C03']
+r.required_covers = RecvUnit.required_covers + ('request sent',)
+UNITS = [s, m, ProcessFramesUnit(), r]
